@@ -16,11 +16,14 @@ def stores(n):
     return pyflow.names_stored(n) if n is not None else []
 
 
-def bool_states(cfg, var):
-    """forward propagation of the possible values of a boolean flag: node -> set of 'T','F','?'"""
+def bool_states(cfg, var, entry=None):
+    """forward propagation of the possible values of a boolean flag: node -> set of 'T','F','?'.
+    With ``entry`` (a loop header) the analysis describes ONE iteration: it starts there with an
+    unknown value and values are not carried around the back edge."""
     state = {i: set() for i in cfg.nodes}
-    state[cfg.ENTRY] = {'?'}
-    todo = [cfg.ENTRY]
+    start = cfg.ENTRY if entry is None else entry
+    state[start] = {'?'}
+    todo = [start]
     while todo:
         x = todo.pop()
         n = cfg.nodes[x]
@@ -38,6 +41,8 @@ def bool_states(cfg, var):
                     o = {v for v in o if v in ('T', '?')}
                 else:
                     o = {v for v in o if v in ('F', '?')}
+            if entry is not None and y == entry:
+                continue
             if not o <= state[y]:
                 state[y] |= o
                 todo.append(y)
@@ -86,12 +91,16 @@ def run(chk):
             other_mut.append((n.lineno, norm(n)[:50]))
     chk.ob('R09.1', not other_mut, NR, fname, 'results are only appended', expected='run.cs / run.increments modified by append only', got=other_mut)
     # ---- R09.1 appends only when converged
-    st = bool_states(cfg, 'converged')
+    # one load step = one iteration of the outermost loop: the flag must be re-established in every step
+    outer = [w for w in ast.walk(fn) if isinstance(w, ast.While) and pyrules.enclosing_tests(fn, w) == [] and
+             not any(w is not w2 and any(x is w for x in ast.walk(w2)) for w2 in ast.walk(fn) if isinstance(w2, ast.While))]
+    chk.need(len(outer) == 1, '_solver_NR: outer load-step loop not found')
+    st = bool_states(cfg, 'converged', entry=cfg.node_of_stmt(outer[0]))
     conv_true = find(lambda n: isinstance(n, ast.Assign) and norm(n) == 'converged=True')
     chk.ob('R09.1', len(conv_true) == 1, NR, fname, 'single convergence assignment', got=len(conv_true))
     for i in app_inc + app_cs:
         chk.ob('R09.1', st[i] == {'T'}, NR, fname, 'append dominated by converged == True: ' + norm(cfg.nodes[i])[:40], line=cfg.nodes[i].lineno,
-               expected='on every path reaching the append the convergence flag is True', got=sorted(st[i]),
+               expected='within one load step, on every path reaching the append the convergence flag was set to True in that step', got=sorted(st[i]),
                sample='%s under converged in %s' % (norm(cfg.nodes[i])[:40], sorted(st[i])))
     if len(conv_true) != 1:
         return
